@@ -56,6 +56,9 @@ NA = {
  "C13": "dependency discovery (scan_deps) and the topological sort are local to dispatch_printed_messages and std::map/std::string-bound; they cannot be driven without the whole load pipeline of C12",
 }
 ALL = ["C%02d" % i for i in range(1, 21)]
+# thorough tiers that were run to completion on the unchanged (repaired) tree in this session; the others have a
+# thorough tier in props/<ID>.py that was not validated for lack of time and is therefore not registered
+THOROUGH_OK = {"C02", "C06", "C07"}
 m = {"version": 1,
      "setup_cmd": "./setup.sh",
      "hooks": {"guard": "RTOSC_VERIF", "enable": "checks pass -DRTOSC_VERIF to cbmc/clang/gcc when they compile /repo sources; no hook is currently needed (no guarded source change in /repo)",
@@ -70,7 +73,7 @@ for pid in ALL:
         m["checks"].append({
             "property_id": pid,
             "quick_cmd": "./check %s --tier quick" % pid,
-            "thorough_cmd": "./check %s --tier thorough" % pid,
+            **({"thorough_cmd": "./check %s --tier thorough" % pid} if pid in THOROUGH_OK else {}),
             "evidence_file": "/verif/evidence/%s.json" % pid,
             "replay_cmd_template": "./check %s --replay {path}" % pid,
             "engine": "cbmc",
